@@ -644,3 +644,1108 @@ theorem onePointX_spec (arity : Nat → Nat) (a b : Flat) (ha : WF arity a) (hb 
     have h1 := depth_concat a _ ha.1 hs.1 p hp
     have h2 := level_add_depth_subtree_le b hb.1 q hq
     omega
+
+/-! ### the k-tree loop -/
+
+def kIters (ars : List (List Nat)) (starts : List Nat) : Nat :=
+  ((ars.zip starts).map fun (ar, s) => ar.length - s).foldl min
+    (((ars.zip starts).map fun (ar, s) => ar.length - s).headD 0)
+
+/-- one iteration of the k-tree loop: the new state and the `terminate` flag -/
+def kIter (ars : List (List Nat)) (st : CRk) : CRk × Bool :=
+  let sc := crkScan ars st.starts (kIters ars st.starts) 0
+  let ad := commonRegionKAux.adv sc.1 ars st.starts [] false
+  ({ starts := ad.1,
+     common := (st.common.zip st.starts).map fun (c, s) => c ++ (List.range sc.1).map (· + s),
+     border := if sc.2 then (st.border.zip st.starts).map fun (b, s) => b ++ [s + sc.1 - 1]
+               else st.border }, ad.2)
+
+theorem kAux_succ (ars : List (List Nat)) (fuel : Nat) (st : CRk) :
+    commonRegionKAux ars (fuel + 1) st =
+      if (kIter ars st).2 = true then (kIter ars st).1
+      else commonRegionKAux ars fuel (kIter ars st).1 := by
+  rw [commonRegionKAux.eq_2]
+  rfl
+
+theorem crkScan_shift (ars : List (List Nat)) (starts : List Nat) : ∀ (f i : Nat),
+    crkScan ars starts f (i + 1) =
+      ((crkScan ars (starts.map (· + 1)) f i).1 + 1, (crkScan ars (starts.map (· + 1)) f i).2) := by
+  intro f
+  induction f with
+  | zero => intro i; simp [crkScan]
+  | succ f ih =>
+    intro i
+    have e : ((ars.zip (starts.map (· + 1))).map fun (ar, s) => ar.getD (s + i) 0) =
+        (ars.zip starts).map fun (ar, s) => ar.getD (s + (i + 1)) 0 := by
+      rw [List.zip_map_right, List.map_map]
+      apply List.map_congr_left
+      intro x _
+      simp only [Function.comp, Prod.map, id]
+      congr 1; omega
+    rw [crkScan, crkScan]
+    simp only [e]
+    split
+    · rw [ih]
+    · rfl
+
+theorem foldl_min_sub (l : List Nat) : ∀ a : Nat,
+    (l.map (· - 1)).foldl min (a - 1) = l.foldl min a - 1 := by
+  induction l with
+  | nil => intro a; rfl
+  | cons x l ih =>
+    intro a
+    simp only [List.map_cons, List.foldl_cons]
+    have : min (a - 1) (x - 1) = min a x - 1 := by omega
+    rw [this, ih]
+
+theorem kIters_shift (ars : List (List Nat)) (starts : List Nat) :
+    kIters ars (starts.map (· + 1)) = kIters ars starts - 1 := by
+  unfold kIters
+  have e : ((ars.zip (starts.map (· + 1))).map fun (ar, s) => ar.length - s) =
+      ((ars.zip starts).map fun (ar, s) => ar.length - s).map (· - 1) := by
+    rw [List.zip_map_right, List.map_map, List.map_map]
+    apply List.map_congr_left
+    intro x _
+    simp only [Function.comp, Prod.map, id]
+    omega
+  rw [e, ← foldl_min_sub]
+  congr 1
+  cases (ars.zip starts).map fun (ar, s) => ar.length - s <;> simp
+
+theorem zip_map_zip {α β γ δ : Type} (F : α × β → γ) (g : β → β) (H : γ × β → δ) (K : α × β → δ)
+    (h : ∀ c s, H (F (c, s), g s) = K (c, s)) : ∀ (C : List α) (ss : List β),
+    (((C.zip ss).map F).zip (ss.map g)).map H = (C.zip ss).map K := by
+  intro C
+  induction C with
+  | nil => intro ss; simp
+  | cons c C ih =>
+    intro ss
+    cases ss with
+    | nil => simp
+    | cons s ss => simp [h, ih]
+
+theorem adv_shift (v : Nat) : ∀ (ars : List (List Nat)) (ss acc : List Nat), ss.length = ars.length →
+    (commonRegionKAux.adv (v + 1) ars ss acc false).2 =
+      (commonRegionKAux.adv v ars (ss.map (· + 1)) acc false).2 ∧
+    ((commonRegionKAux.adv (v + 1) ars ss acc false).2 = false →
+      (commonRegionKAux.adv (v + 1) ars ss acc false).1 =
+        (commonRegionKAux.adv v ars (ss.map (· + 1)) acc false).1) := by
+  intro ars
+  induction ars with
+  | nil =>
+    intro ss acc hl
+    have : ss = [] := List.length_eq_zero_iff.1 (by simpa using hl)
+    subst this
+    simp [commonRegionKAux.adv]
+  | cons ar ars ih =>
+    intro ss acc hl
+    cases ss with
+    | nil => simp at hl
+    | cons s ss =>
+      simp only [List.map_cons, commonRegionKAux.adv.eq_1]
+      have e : s + (v + 1) - 1 = s + 1 + v - 1 := by omega
+      rw [e]
+      split
+      · simp
+      · exact ih ss _ (by simpa using hl)
+
+def res (st : CRk) : List (List Nat) × List (List Nat) := (st.common, st.border)
+
+theorem crkScan_succ_eq (ars : List (List Nat)) (starts : List Nat) (f : Nat)
+    (hcol : (((ars.zip starts).map fun (ar, s) => ar.getD s 0).all
+      (· == ((ars.zip starts).map fun (ar, s) => ar.getD s 0).headD 0)) = true) :
+    crkScan ars starts (f + 1) 0 =
+      ((crkScan ars (starts.map (· + 1)) f 0).1 + 1, (crkScan ars (starts.map (· + 1)) f 0).2) := by
+  rw [crkScan]
+  simp only [Nat.add_zero, hcol, if_true]
+  exact crkScan_shift ars starts f 0
+
+theorem kstep_eq (ars : List (List Nat)) (fuel : Nat) (starts : List Nat) (C B : List (List Nat))
+    (hlen : starts.length = ars.length) (hit : 2 ≤ kIters ars starts)
+    (hcol : (((ars.zip starts).map fun (ar, s) => ar.getD s 0).all
+      (· == ((ars.zip starts).map fun (ar, s) => ar.getD s 0).headD 0)) = true) :
+    res (commonRegionKAux ars (fuel + 1) { starts := starts, common := C, border := B }) =
+      res (commonRegionKAux ars (fuel + 1)
+        { starts := starts.map (· + 1),
+          common := (C.zip starts).map (fun (c, s) => c ++ [s]), border := B }) := by
+  obtain ⟨it, hit'⟩ : ∃ it, kIters ars starts = it + 1 := ⟨kIters ars starts - 1, by omega⟩
+  have hit1 : kIters ars (starts.map (· + 1)) = it := by rw [kIters_shift, hit']; rfl
+  rw [kAux_succ, kAux_succ]
+  simp only [kIter, hit', hit1, crkScan_succ_eq ars starts it hcol]
+  generalize (crkScan ars (starts.map (· + 1)) it 0).1 = v1
+  generalize (crkScan ars (starts.map (· + 1)) it 0).2 = b1
+  obtain ⟨ha1, ha2⟩ := adv_shift v1 ars starts [] hlen
+  have ecom : ((C.zip starts).map fun (c, s) => c ++ (List.range (v1 + 1)).map (· + s)) =
+      ((((C.zip starts).map fun (c, s) => c ++ [s]).zip (starts.map (· + 1))).map
+        fun (c, s) => c ++ (List.range v1).map (· + s)) := by
+    symm
+    apply zip_map_zip
+    intro c s
+    simp only [List.append_assoc, List.singleton_append]
+    congr 1
+    rw [List.range_succ_eq_map]
+    simp only [List.map_cons, List.map_map, Nat.zero_add]
+    congr 1
+    apply List.map_congr_left
+    intro x _; simp; omega
+  have ebor : ((B.zip starts).map fun (b, s) => b ++ [s + (v1 + 1) - 1]) =
+      ((B.zip (starts.map (· + 1))).map fun (b, s) => b ++ [s + v1 - 1]) := by
+    rw [List.zip_map_right, List.map_map]
+    apply List.map_congr_left
+    intro x _
+    simp only [Function.comp, Prod.map, id]
+    congr 2
+    omega
+  rw [ecom, ebor, ← ha1]
+  cases hterm : (commonRegionKAux.adv (v1 + 1) ars starts [] false).2 with
+  | true => simp [res]
+  | false =>
+    rw [← ha2 hterm]
+
+inductive All2 {α β : Type} (R : α → β → Prop) : List α → List β → Prop
+  | nil : All2 R [] []
+  | cons {a b l l'} : R a b → All2 R l l' → All2 R (a :: l) (b :: l')
+
+theorem All2.length_eq {α β : Type} {R : α → β → Prop} {l : List α} {l' : List β}
+    (h : All2 R l l') : l.length = l'.length := by
+  induction h with
+  | nil => rfl
+  | cons _ _ ih => simp [ih]
+
+/-- each arity array, from its start on, is the flattened remaining forest -/
+def KInv (ars : List (List Nat)) (S : List (List RT × Nat)) : Prop :=
+  All2 (fun ar x => ar.drop x.2 = arities (flatL x.1)) ars S
+
+theorem forall2_zip_map {α β γ δ : Type} {R : α → β → Prop} {ars : List α} {S : List β}
+    (h : All2 R ars S) (sel : β → γ) (f : α × γ → δ) (g : β → δ)
+    (hfg : ∀ ar x, R ar x → f (ar, sel x) = g x) :
+    (ars.zip (S.map sel)).map f = S.map g := by
+  induction h with
+  | nil => simp
+  | cons h1 _ ih => simp [hfg _ _ h1, ih]
+
+theorem KInv_length {ars : List (List Nat)} {S : List (List RT × Nat)} (h : KInv ars S) :
+    ars.length = S.length := All2.length_eq h
+
+theorem foldl_min_ge (lo : Nat) (l : List Nat) : ∀ a : Nat, (∀ x ∈ l, lo ≤ x) → lo ≤ a →
+    lo ≤ l.foldl min a := by
+  induction l with
+  | nil => intro a _ h; exact h
+  | cons x l ih =>
+    intro a hl ha
+    simp only [List.foldl_cons]
+    apply ih
+    · intro y hy; exact hl y (List.mem_cons_of_mem _ hy)
+    · have := hl x (by simp); omega
+
+theorem foldl_min_le (l : List Nat) : ∀ a : Nat, l.foldl min a ≤ a := by
+  induction l with
+  | nil => intro a; exact Nat.le_refl _
+  | cons x l ih =>
+    intro a
+    simp only [List.foldl_cons]
+    have := ih (min a x); omega
+
+theorem kIters_eq {ars : List (List Nat)} {S : List (List RT × Nat)} (h : KInv ars S) :
+    kIters ars (S.map (·.2)) =
+      (S.map fun x => sizeL x.1).foldl min ((S.map fun x => sizeL x.1).headD 0) := by
+  unfold kIters
+  rw [forall2_zip_map h (·.2) (fun (ar, s) => ar.length - s) (fun x => sizeL x.1)]
+  intro ar x hx
+  have := congrArg List.length hx
+  simp only [List.length_drop, arities_flatL_length] at this
+  exact this
+
+theorem kIters_ge {ars : List (List Nat)} {S : List (List RT × Nat)} (h : KInv ars S) (lo : Nat)
+    (hS : S ≠ []) (hlo : ∀ x ∈ S, lo ≤ sizeL x.1) : lo ≤ kIters ars (S.map (·.2)) := by
+  rw [kIters_eq h]
+  apply foldl_min_ge
+  · intro y hy
+    obtain ⟨x, hx, rfl⟩ := List.mem_map.1 hy
+    exact hlo x hx
+  · cases S with
+    | nil => exact absurd rfl hS
+    | cons x S => simpa using hlo x (by simp)
+
+theorem kIters_le {ars : List (List Nat)} {S : List (List RT × Nat)} (h : KInv ars S)
+    (x : List RT × Nat) (S' : List (List RT × Nat)) (hS : S = x :: S') :
+    kIters ars (S.map (·.2)) ≤ sizeL x.1 := by
+  rw [kIters_eq h]
+  subst hS
+  exact foldl_min_le _ _
+
+theorem getD_of_drop (ar : List Nat) (p : Nat) (t : RT) (rest : List Nat)
+    (h : ar.drop p = arities (flat t) ++ rest) : ar.getD p 0 = t.arity := by
+  have : (ar.drop p)[0]? = some t.arity := by
+    rw [h]; cases t with | node s ks => simp [arities_flat_node, RT.arity, RT.kids]
+  rw [List.getElem?_drop, Nat.add_zero] at this
+  simp [List.getD_eq_getElem?_getD, this]
+
+theorem kcol_eq {ars : List (List Nat)} {S : List (List RT × Nat)} (h : KInv ars S)
+    (hne : ∀ x ∈ S, x.1 ≠ []) :
+    ((ars.zip (S.map (·.2))).map fun (ar, s) => ar.getD s 0) = S.map fun x => (hd x.1).arity := by
+  have h' : All2 (fun ar x => ar.drop x.2 = arities (flatL x.1) ∧ x.1 ≠ []) ars S := by
+    induction h with
+    | nil => exact .nil
+    | cons h1 _ ih =>
+      exact .cons ⟨h1, hne _ (by simp)⟩ (ih fun x hx => hne x (List.mem_cons_of_mem _ hx))
+  apply forall2_zip_map h' (·.2) (fun (ar, s) => ar.getD s 0) (fun x => (hd x.1).arity)
+  intro ar x ⟨hx, hxne⟩
+  obtain ⟨F, p⟩ := x
+  cases F with
+  | nil => exact absurd rfl hxne
+  | cons t F =>
+    simp only [flatL_cons, arities_append] at hx
+    exact getD_of_drop ar p t _ hx
+
+theorem adv_run : ∀ (ars : List (List Nat)) (S : List (List RT × Nat)) (acc : List Nat),
+    KInv ars S → (∀ x ∈ S, 2 ≤ x.1.length) →
+    commonRegionKAux.adv 1 ars (S.map (·.2)) acc false =
+      (acc.reverse ++ S.map (fun x => x.2 + (hd x.1).size), false) := by
+  intro ars S acc h
+  induction h generalizing acc with
+  | nil => intro _; simp [commonRegionKAux.adv]
+  | @cons ar x ars S h1 _ ih =>
+    intro h2
+    obtain ⟨F, p⟩ := x
+    have hF := h2 (F, p) (by simp)
+    match F, hF with
+    | t :: u :: F, _ =>
+      simp only [flatL_cons, arities_append] at h1
+      have hl := congrArg List.length h1
+      simp only [List.length_drop, List.length_append, arities_length, size_flat] at hl
+      have hu := size_pos u
+      simp only [List.map_cons, commonRegionKAux.adv.eq_1, Nat.add_sub_cancel]
+      rw [endSub_of_drop ar p t _ h1]
+      have : ¬ ar.length ≤ p + t.size := by omega
+      simp only [this, if_false]
+      rw [ih _ (fun x hx => h2 x (List.mem_cons_of_mem _ hx))]
+      simp
+
+theorem adv_term (ar : List Nat) (ars : List (List Nat)) (t : RT) (p : Nat) (ss acc : List Nat)
+    (h : ar.drop p = arities (flatL [t])) :
+    (commonRegionKAux.adv 1 (ar :: ars) (p :: ss) acc false).2 = true := by
+  simp only [flatL_cons, flatL_nil, List.append_nil] at h
+  have h' : ar.drop p = arities (flat t) ++ [] := by simpa using h
+  have hl := congrArg List.length h
+  simp only [List.length_drop, arities_length, size_flat] at hl
+  simp only [commonRegionKAux.adv.eq_1, Nat.add_sub_cancel]
+  rw [endSub_of_drop ar p t _ h']
+  have : ar.length ≤ p + t.size := by omega
+  simp [this]
+
+/-- append one position to every column -/
+def appCol (C : List (List Nat)) (ss : List Nat) : List (List Nat) :=
+  (C.zip ss).map fun (c, s) => c ++ [s]
+
+theorem crkScan_ne (ars : List (List Nat)) (starts : List Nat) (f : Nat)
+    (hcol : (((ars.zip starts).map fun (ar, s) => ar.getD s 0).all
+      (· == ((ars.zip starts).map fun (ar, s) => ar.getD s 0).headD 0)) = false) :
+    crkScan ars starts (f + 1) 0 = (1, true) := by
+  rw [crkScan]
+  simp only [Nat.add_zero, hcol]
+  simp
+
+theorem range_one_map (s : Nat) : (List.range 1).map (· + s) = [s] := by
+  simp [List.range_succ]
+
+theorem kstep_ne (ars : List (List Nat)) (S : List (List RT × Nat))
+    (C B : List (List Nat)) (h : KInv ars S) (hS : S ≠ []) (hne : ∀ x ∈ S, x.1 ≠ [])
+    (hcol : ((S.map fun x => (hd x.1).arity).all
+      (· == (S.map fun x => (hd x.1).arity).headD 0)) = false) :
+    (kIter ars { starts := S.map (·.2), common := C, border := B }).1.common =
+        appCol C (S.map (·.2)) ∧
+    (kIter ars { starts := S.map (·.2), common := C, border := B }).1.border =
+        appCol B (S.map (·.2)) ∧
+    (kIter ars { starts := S.map (·.2), common := C, border := B }).2 =
+      (commonRegionKAux.adv 1 ars (S.map (·.2)) [] false).2 ∧
+    (kIter ars { starts := S.map (·.2), common := C, border := B }).1.starts =
+      (commonRegionKAux.adv 1 ars (S.map (·.2)) [] false).1 := by
+  have hit := kIters_ge h 1 hS (fun x hx => by
+    have := length_le_sizeL x.1
+    have : x.1.length ≠ 0 := fun h0 => hne x hx (List.length_eq_zero_iff.1 h0)
+    omega)
+  obtain ⟨it, hit'⟩ : ∃ it, kIters ars (S.map (·.2)) = it + 1 := ⟨_, (Nat.sub_add_cancel hit).symm⟩
+  rw [← kcol_eq h hne] at hcol
+  simp only [kIter, hit', crkScan_ne ars _ it hcol, range_one_map, Nat.add_sub_cancel, if_true,
+    appCol, and_self]
+
+theorem crkScan_one_eq (ars : List (List Nat)) (starts : List Nat)
+    (hcol : (((ars.zip starts).map fun (ar, s) => ar.getD s 0).all
+      (· == ((ars.zip starts).map fun (ar, s) => ar.getD s 0).headD 0)) = true) :
+    crkScan ars starts 1 0 = (1, false) := by
+  rw [crkScan]
+  simp only [Nat.add_zero, hcol, if_true]
+  rfl
+
+theorem kstep_end (ars : List (List Nat)) (S : List (List RT × Nat))
+    (C B : List (List Nat)) (h : KInv ars S) (x0 : List RT × Nat) (S' : List (List RT × Nat))
+    (hS : S = x0 :: S') (hone : ∀ x ∈ S, sizeL x.1 = 1)
+    (hcol : ((S.map fun x => (hd x.1).arity).all
+      (· == (S.map fun x => (hd x.1).arity).headD 0)) = true) :
+    (kIter ars { starts := S.map (·.2), common := C, border := B }).1.common =
+        appCol C (S.map (·.2)) ∧
+    (kIter ars { starts := S.map (·.2), common := C, border := B }).1.border = B ∧
+    (kIter ars { starts := S.map (·.2), common := C, border := B }).2 =
+      (commonRegionKAux.adv 1 ars (S.map (·.2)) [] false).2 := by
+  have hne : ∀ x ∈ S, x.1 ≠ [] := by
+    intro x hx h0
+    have := hone x hx
+    rw [h0] at this; simp at this
+  have hit := kIters_ge h 1 (by rw [hS]; simp) (fun x hx => by rw [hone x hx]; exact Nat.le_refl _)
+  have hit2 := kIters_le h x0 S' hS
+  rw [hone x0 (by rw [hS]; simp)] at hit2
+  have hit' : kIters ars (S.map (·.2)) = 1 := by omega
+  rw [← kcol_eq h hne] at hcol
+  simp only [kIter, hit', crkScan_one_eq ars _ hcol, range_one_map, appCol]
+  simp
+
+theorem All2.map_right {α β γ : Type} {R : α → β → Prop} {R' : α → γ → Prop} {l : List α}
+    {l' : List β} (f : β → γ) (h : All2 R l l') (hf : ∀ a b, b ∈ l' → R a b → R' a (f b)) :
+    All2 R' l (l'.map f) := by
+  induction h with
+  | nil => exact .nil
+  | cons h1 _ ih =>
+    exact .cons (hf _ _ (by simp) h1) (ih fun a b hb => hf a b (List.mem_cons_of_mem _ hb))
+
+def colsApp (C : List (List Nat)) : List (List Nat) → List (List Nat)
+  | [] => C
+  | tp :: r => colsApp (appCol C tp) r
+
+theorem sizeL_singleton_leaf (F : List RT) (h1 : F.length = 1) (h2 : (hd F).kids.length = 0) :
+    sizeL F = 1 := by
+  match F, h1 with
+  | [u], _ =>
+    have := kids_size u
+    simp only [hd_cons] at h2
+    rw [List.length_eq_zero_iff.1 h2] at this
+    simp [sizeL_cons, this]
+
+theorem k_loop (ars : List (List Nat)) : ∀ (g : Nat) (F0 : List RT) (p0 : Nat)
+    (S' : List (List RT × Nat)) (fuel : Nat) (C B : List (List Nat)),
+    F0 ≠ [] → (∀ x ∈ S', x.1.length = F0.length) → sizeL F0 ≤ g → sizeL F0 ≤ fuel →
+    KInv ars ((F0, p0) :: S') →
+    res (commonRegionKAux ars fuel
+        { starts := ((F0, p0) :: S').map (·.2), common := C, border := B }) =
+      (colsApp C (csF g ((F0, p0) :: S')).1, colsApp B (csF g ((F0, p0) :: S')).2) := by
+  intro g
+  induction g with
+  | zero =>
+    intro F0 p0 S' fuel C B hne _ hg
+    have := length_le_sizeL F0
+    exact absurd (List.length_eq_zero_iff.1 (by omega)) hne
+  | succ g ih =>
+    intro F0 p0 S' fuel C B hne hS' hg hfuel hinv
+    match F0, hne with
+    | t :: F, _ =>
+    rw [sizeL_cons] at hg hfuel
+    have htpos := size_pos t
+    obtain ⟨fuel, rfl⟩ : ∃ f, fuel = f + 1 := ⟨fuel - 1, by omega⟩
+    have hSall : ∀ x ∈ (t :: F, p0) :: S', x.1.length = F.length + 1 := by
+      intro x hx
+      rcases List.mem_cons.1 hx with rfl | hx
+      · rfl
+      · simpa using hS' x hx
+    have hSne : ∀ x ∈ (t :: F, p0) :: S', x.1 ≠ [] := by
+      intro x hx h0
+      have := hSall x hx
+      rw [h0] at this; simp at this
+    have hcolconv : ((((t :: F, p0) :: S').map fun x => (hd x.1).arity).all
+        (· == (((t :: F, p0) :: S').map fun x => (hd x.1).arity).headD 0)) =
+        (S'.all fun x => (hd x.1).arity == t.arity) := by
+      simp [List.all_map, Function.comp_def]
+    rw [csF]
+    by_cases hall : (S'.all fun x => (hd x.1).arity == t.arity) = true
+    · simp only [hall, if_true]
+      have harity : ∀ x ∈ (t :: F, p0) :: S', (hd x.1).kids.length = t.kids.length := by
+        intro x hx
+        rcases List.mem_cons.1 hx with rfl | hx
+        · rfl
+        · have := List.all_eq_true.1 hall x hx
+          simpa [RT.arity] using this
+      by_cases hR : t.kids ++ F = []
+      · -- the last node of every tree
+        have hk : t.kids = [] := (List.append_eq_nil_iff.1 hR).1
+        have hF : F = [] := (List.append_eq_nil_iff.1 hR).2
+        have hone : ∀ x ∈ (t :: F, p0) :: S', sizeL x.1 = 1 := by
+          intro x hx
+          apply sizeL_singleton_leaf
+          · rw [hSall x hx, hF]; rfl
+          · rw [harity x hx, hk]; rfl
+        obtain ⟨e1, e2, e3⟩ := kstep_end ars _ C B hinv _ _ rfl hone (by rw [hcolconv]; exact hall)
+        have hterm : (commonRegionKAux.adv 1 ars (((t :: F, p0) :: S').map (·.2)) [] false).2 =
+            true := by
+          cases hinv with
+          | cons h1 _ =>
+            subst hF
+            exact adv_term _ _ t p0 _ _ h1
+        rw [kAux_succ, e3, hterm]
+        simp only [if_true, res, e1, e2]
+        simp only [hR, csF_nil, tapp, List.append_nil, colsApp, List.map_cons]
+      · have hlen := KInv_length hinv
+        have hit : 2 ≤ kIters ars (((t :: F, p0) :: S').map (·.2)) := by
+          apply kIters_ge hinv 2 (by simp)
+          intro x hx
+          obtain ⟨Fx, px⟩ := x
+          have h1 := hSall _ hx
+          have h2 := harity _ hx
+          match Fx, h1 with
+          | u :: Fx, h1 =>
+            simp only [hd_cons] at h2
+            have h3 := length_le_sizeL u.kids
+            have h4 := length_le_sizeL Fx
+            have h5 := kids_size u
+            have h6 : (t.kids ++ F).length ≠ 0 := fun h0 => hR (List.length_eq_zero_iff.1 h0)
+            simp only [List.length_append, List.length_cons] at h6 h1
+            simp only [sizeL_cons]
+            omega
+        have hcol := hcolconv.trans hall
+        rw [← kcol_eq hinv hSne] at hcol
+        rw [kstep_eq ars fuel _ C B (by simp [hlen]) hit hcol]
+        have hinv1 : KInv ars (((t :: F, p0) :: S').map
+            fun x => ((hd x.1).kids ++ x.1.tail, x.2 + 1)) := by
+          apply All2.map_right _ hinv
+          intro ar x hx hdrop
+          obtain ⟨Fx, px⟩ := x
+          have h1 := hSall _ hx
+          match Fx, h1 with
+          | .node su ksu :: Fx, h1 =>
+            simp only [hd_cons, RT.kids, List.tail_cons]
+            have : ar.drop px = ksu.length :: arities (flatL (ksu ++ Fx)) := by
+              rw [hdrop, flatL_cons, arities_append, arities_flat_node, flatL_append,
+                arities_append]; rfl
+            exact drop_succ_of_drop_eq_cons this
+        have hks := kids_size t
+        have := ih (t.kids ++ F) (p0 + 1) (S'.map fun x => ((hd x.1).kids ++ x.1.tail, x.2 + 1))
+          (fuel + 1) (appCol C (((t :: F, p0) :: S').map (·.2))) B hR ?_
+          (by rw [sizeL_append]; omega) (by rw [sizeL_append]; omega) hinv1
+        · simp only [List.map_cons, List.map_map, Function.comp_def] at this ⊢
+          rw [appCol] at this
+          rw [this]
+          simp [tapp, colsApp, appCol]
+        · intro x hx
+          obtain ⟨y, hy, rfl⟩ := List.mem_map.1 hx
+          have h1 := hSall y (List.mem_cons_of_mem _ hy)
+          have h2 := harity y (List.mem_cons_of_mem _ hy)
+          simp only [List.length_append, List.length_tail, h1, h2]
+          omega
+    · simp only [hall, Bool.false_eq_true, if_false]
+      have hcol : ((((t :: F, p0) :: S').map fun x => (hd x.1).arity).all
+        (· == (((t :: F, p0) :: S').map fun x => (hd x.1).arity).headD 0)) = false := by
+        rw [hcolconv]; simpa using hall
+      obtain ⟨e1, e2, e3, e4⟩ := kstep_ne ars _ C B hinv (by simp) hSne hcol
+      by_cases hF : F = []
+      · subst hF
+        have hterm : (commonRegionKAux.adv 1 ars ((([t], p0) :: S').map (·.2)) [] false).2 =
+            true := by
+          cases hinv with
+          | cons h1 _ => exact adv_term _ _ t p0 _ _ h1
+        rw [kAux_succ, e3, hterm]
+        simp only [if_true, res, e1, e2]
+        simp only [csF_nil, tapp, List.append_nil, colsApp, List.map_cons]
+      · have hFl : F.length ≠ 0 := fun h0 => hF (List.length_eq_zero_iff.1 h0)
+        have hrun := adv_run ars _ [] hinv (fun x hx => by rw [hSall x hx]; omega)
+        have hinv2 : KInv ars (((t :: F, p0) :: S').map
+            fun x => (x.1.tail, x.2 + (hd x.1).size)) := by
+          apply All2.map_right _ hinv
+          intro ar x hx hdrop
+          obtain ⟨Fx, px⟩ := x
+          have h1 := hSall _ hx
+          match Fx, h1 with
+          | u :: Fx, h1 =>
+            simp only [hd_cons, List.tail_cons]
+            rw [flatL_cons, arities_append] at hdrop
+            exact drop_of_drop _ _ _ _ hdrop
+        rw [kAux_succ, e3, hrun]
+        simp only [Bool.false_eq_true, if_false]
+        have est : (kIter ars { starts := ((t :: F, p0) :: S').map (·.2), common := C, border := B }).1 =
+            { starts := (((t :: F, p0) :: S').map fun x => (x.1.tail, x.2 + (hd x.1).size)).map (·.2),
+              common := appCol C (((t :: F, p0) :: S').map (·.2)),
+              border := appCol B (((t :: F, p0) :: S').map (·.2)) } := by
+          rw [← e1, ← e2]
+          have : (((t :: F, p0) :: S').map fun x => (x.1.tail, x.2 + (hd x.1).size)).map (·.2) =
+              (kIter ars { starts := ((t :: F, p0) :: S').map (·.2), common := C, border := B }).1.starts := by
+            rw [e4, hrun]; simp [Function.comp_def]
+          rw [this]
+        rw [est]
+        have := ih F (p0 + t.size) (S'.map fun x => (x.1.tail, x.2 + (hd x.1).size))
+          fuel (appCol C (((t :: F, p0) :: S').map (·.2))) (appCol B (((t :: F, p0) :: S').map (·.2)))
+          hF ?_ (by omega) (by omega) (show KInv ars ((F, p0 + t.size) :: S'.map fun x => (x.1.tail, x.2 + (hd x.1).size)) from hinv2)
+        · simp only [List.map_cons, List.map_map, Function.comp_def, hd_cons, List.tail_cons] at this ⊢
+          rw [this]
+          simp [tapp, colsApp]
+        · intro x hx
+          obtain ⟨y, hy, rfl⟩ := List.mem_map.1 hx
+          have h1 := hSall y (List.mem_cons_of_mem _ hy)
+          simp only [List.length_tail, h1]
+          omega
+
+theorem csF_tuple_length : ∀ (g : Nat) (S : List (List RT × Nat)),
+    (∀ tp ∈ (csF g S).1, tp.length = S.length) ∧ (∀ tp ∈ (csF g S).2, tp.length = S.length) := by
+  intro g
+  induction g with
+  | zero => intro S; simp [csF]
+  | succ g ih =>
+    intro S
+    match S with
+    | [] => simp [csF]
+    | ([], _) :: _ => simp [csF]
+    | (t :: F, p) :: S =>
+      rw [csF]
+      split
+      · have := ih ((t.kids ++ F, p + 1) :: S.map fun x => ((hd x.1).kids ++ x.1.tail, x.2 + 1))
+        simp only [List.length_cons, List.length_map] at this
+        simp only [tapp, List.singleton_append, List.mem_cons, List.nil_append, List.length_cons]
+        refine ⟨?_, this.2⟩
+        rintro tp (rfl | h)
+        · simp
+        · exact this.1 tp h
+      · have := ih ((F, p + t.size) :: S.map fun x => (x.1.tail, x.2 + (hd x.1).size))
+        simp only [List.length_cons, List.length_map] at this
+        simp only [tapp, List.singleton_append, List.mem_cons, List.length_cons]
+        constructor
+        · rintro tp (rfl | h)
+          · simp
+          · exact this.1 tp h
+        · rintro tp (rfl | h)
+          · simp
+          · exact this.2 tp h
+
+theorem appCol_length (C : List (List Nat)) (tp : List Nat) (h : tp.length = C.length) :
+    (appCol C tp).length = C.length := by
+  simp [appCol, h]
+
+theorem colsApp_eq (k : Nat) : ∀ (tuples C : List (List Nat)), C.length = k →
+    (∀ tp ∈ tuples, tp.length = k) →
+    colsApp C tuples = (List.range k).map fun j => C.getD j [] ++ tuples.map fun tp => tp.getD j 0 := by
+  intro tuples
+  induction tuples with
+  | nil =>
+    intro C hC _
+    simp only [colsApp, List.map_nil, List.append_nil]
+    apply List.ext_getElem
+    · simp [hC]
+    · intro i h1 h2
+      simp [List.getD_eq_getElem?_getD, h1]
+  | cons tp r ih =>
+    intro C hC hall
+    have htp : tp.length = k := hall tp (by simp)
+    rw [colsApp, ih (appCol C tp) (by rw [appCol_length C tp (by omega), hC])
+      (fun x hx => hall x (List.mem_cons_of_mem _ hx))]
+    apply List.map_congr_left
+    intro j hj
+    have hj' : j < k := List.mem_range.1 hj
+    have h1 : j < C.length := by omega
+    have h2 : j < tp.length := by omega
+    have h3 : j < (C.zip tp).length := by simp; omega
+    simp [appCol, List.getD_eq_getElem?_getD, h1, h2, List.getElem?_eq_getElem h3, List.getElem_zip]
+
+theorem getD_map_nil {α : Type} (l : List α) (j : Nat) :
+    (l.map fun _ => ([] : List Nat)).getD j [] = [] := by
+  simp only [List.getD_eq_getElem?_getD, List.getElem?_map]
+  cases l[j]? <;> simp
+
+theorem All2_map_map {α β γ : Type} (R : β → γ → Prop) (f : α → β) (g : α → γ) (l : List α)
+    (h : ∀ x, R (f x) (g x)) : All2 R (l.map f) (l.map g) := by
+  induction l with
+  | nil => exact .nil
+  | cons x l ih => exact .cons (h x) ih
+
+theorem le_foldl_add (l : List Nat) : ∀ a : Nat, a ≤ l.foldl (· + ·) a := by
+  induction l with
+  | nil => intro a; exact Nat.le_refl _
+  | cons x l ih => intro a; simp only [List.foldl_cons]; have := ih (a + x); omega
+
+theorem commonRegionK_flat (t : RT) (ts : List RT) :
+    res (commonRegionK ((t :: ts).map fun t => arities (flat t))) =
+      ((List.range (t :: ts).length).map fun j =>
+          (commonSpec t.size (t :: ts) ((t :: ts).map fun _ => 0)).1.map fun tp => tp.getD j 0,
+       (List.range (t :: ts).length).map fun j =>
+          (commonSpec t.size (t :: ts) ((t :: ts).map fun _ => 0)).2.map fun tp => tp.getD j 0) := by
+  rw [commonSpec_eq_csF t ts t.size (Nat.le_refl _)]
+  unfold commonRegionK
+  have hinv : KInv ((t :: ts).map fun t => arities (flat t))
+      (([t], 0) :: ts.map fun u => ([u], 0)) := by
+    have := All2_map_map (fun ar (x : List RT × Nat) => ar.drop x.2 = arities (flatL x.1))
+      (fun t => arities (flat t)) (fun u => ([u], 0)) (t :: ts) (by intro x; simp [flatL_cons])
+    exact this
+  have hfuel : sizeL [t] ≤
+      (((t :: ts).map fun t => arities (flat t)).map List.length).foldl (· + ·) 1 := by
+    simp only [List.map_cons, List.foldl_cons, arities_length, size_flat, sizeL_cons, sizeL_nil]
+    have := le_foldl_add ((ts.map fun t => arities (flat t)).map List.length) (1 + t.size)
+    omega
+  have hl := k_loop _ t.size [t] 0 (ts.map fun u => ([u], 0)) _
+    (((t :: ts).map fun t => arities (flat t)).map fun _ => [])
+    (((t :: ts).map fun t => arities (flat t)).map fun _ => []) (by simp) (by simp)
+    (by simp [sizeL_cons]) hfuel hinv
+  have hst : ((([t], 0) :: ts.map fun u => ([u], 0)) : List (List RT × Nat)).map (·.2) =
+      ((t :: ts).map fun t => arities (flat t)).map fun _ => 0 := by
+    simp [Function.comp_def]
+  rw [hst] at hl
+  rw [hl]
+  obtain ⟨h1, h2⟩ := csF_tuple_length t.size (([t], 0) :: ts.map fun u => ([u], 0))
+  simp only [List.length_cons, List.length_map] at h1 h2
+  rw [colsApp_eq (ts.length + 1) _ _ (by simp) h1, colsApp_eq (ts.length + 1) _ _ (by simp) h2]
+  simp only [List.length_cons, List.map_map, Function.comp_def, getD_map_nil, List.nil_append]
+
+theorem common_region_spec (ts : List RT) (hk : 2 ≤ ts.length) :
+    commonRegion (ts.map fun t => arities (flat t)) =
+      ((List.range ts.length).map fun j =>
+          (commonSpec (ts.headD default).size ts (ts.map fun _ => 0)).1.map fun tp => tp.getD j 0,
+       (List.range ts.length).map fun j =>
+          (commonSpec (ts.headD default).size ts (ts.map fun _ => 0)).2.map fun tp => tp.getD j 0) := by
+  match ts, hk with
+  | [t1, t2], _ => exact common_region_spec_two t1 t2
+  | t1 :: t2 :: t3 :: ts, _ =>
+    have := commonRegionK_flat t1 (t2 :: t3 :: ts)
+    simp only [List.map_cons, commonRegion, List.headD_cons] at this ⊢
+    exact this
+
+/-! ### uniform crossover -/
+
+/-- what the uniform crossover copies for one common tuple `tp` from parent `j` -/
+def piece (ps : List Flat) (b0 : List Nat) (tp : List Nat) (j : Nat) : Flat :=
+  if b0.contains (tp.getD 0 0) then subtree (ps.getD j []) (tp.getD j 0)
+  else [(ps.getD j []).getD (tp.getD j 0) (0, 0)]
+
+def buildU (ps : List Flat) (b0 : List Nat) : List (List Nat) → List Nat → List Flat
+  | [], _ => []
+  | tp :: r, pl => piece ps b0 tp (pl.headD 0) :: buildU ps b0 r pl.tail
+
+theorem buildU_eq_range (ps : List Flat) (b0 : List Nat) : ∀ (r : List (List Nat)) (pl : List Nat),
+    buildU ps b0 r pl =
+      (List.range r.length).map fun i => piece ps b0 (r.getD i []) (pl.getD i 0) := by
+  intro r
+  induction r with
+  | nil => intro pl; simp [buildU]
+  | cons tp r ih =>
+    intro pl
+    rw [buildU, ih, List.length_cons, List.range_succ_eq_map]
+    simp only [List.map_cons, List.map_map, List.getD_cons_zero]
+    congr 1
+    · cases pl <;> simp
+    · apply List.map_congr_left
+      intro i _
+      cases pl <;> simp
+
+theorem uniformX_eq (ps : List Flat) (pool : List Nat) (k : Nat) (T1 T2 : List (List Nat))
+    (hk : 0 < k)
+    (hcr : commonRegion (ps.map arities) =
+      ((List.range k).map fun j => T1.map fun tp => tp.getD j 0,
+       (List.range k).map fun j => T2.map fun tp => tp.getD j 0))
+    (hpool : ∀ j ∈ pool, j < k) :
+    uniformX ps pool = (buildU ps (T2.map fun tp => tp.getD 0 0) T1 pool).flatten := by
+  unfold uniformX
+  rw [hcr, buildU_eq_range]
+  obtain ⟨k, rfl⟩ : ∃ k', k = k' + 1 := ⟨k - 1, by omega⟩
+  simp only [List.range_succ_eq_map, List.map_cons, List.headD_cons, List.length_map]
+  congr 1
+  apply List.map_congr_left
+  intro i hi
+  have hi' : i < T1.length := List.mem_range.1 hi
+  have hj : pool.getD i 0 < k + 1 := by
+    rw [List.getD_eq_getElem?_getD]
+    cases h : pool[i]? with
+    | none => simp
+    | some j => exact hpool j (List.mem_of_getElem? h)
+  generalize pool.getD i 0 = j at hj
+  unfold piece
+  have e1 : (T1.map fun tp => tp.getD 0 0).getD i 0 = (T1.getD i []).getD 0 0 := by
+    simp [List.getD_eq_getElem?_getD, hi']
+  have e2 : ((0 :: (List.range k).map Nat.succ).map fun j => T1.map fun tp => tp.getD j 0).getD j []
+      = T1.map fun tp => tp.getD j 0 := by
+    rw [← List.range_succ_eq_map]
+    simp [List.getD_eq_getElem?_getD, hj]
+  have e3 : (T1.map fun tp => tp.getD j 0).getD i 0 = (T1.getD i []).getD j 0 := by
+    simp [List.getD_eq_getElem?_getD, hi']
+  simp only [List.map_cons, List.map_map] at e2 ⊢
+  rw [e1, e2, e3]
+
+theorem csF_lowbound : ∀ (g : Nat) (F0 : List RT) (p0 : Nat) (S : List (List RT × Nat)),
+    (∀ tp ∈ (csF g ((F0, p0) :: S)).1, p0 ≤ tp.getD 0 0) ∧
+    (∀ tp ∈ (csF g ((F0, p0) :: S)).2, p0 ≤ tp.getD 0 0) := by
+  intro g
+  induction g with
+  | zero => intro F0 p0 S; simp [csF]
+  | succ g ih =>
+    intro F0 p0 S
+    match F0 with
+    | [] => simp [csF]
+    | t :: F =>
+      rw [csF]
+      split
+      · have := ih (t.kids ++ F) (p0 + 1) (S.map fun x => ((hd x.1).kids ++ x.1.tail, x.2 + 1))
+        simp only [tapp, List.singleton_append, List.mem_cons, List.nil_append]
+        refine ⟨?_, fun tp h => by have := this.2 tp h; omega⟩
+        rintro tp (rfl | h)
+        · simp
+        · have := this.1 tp h; omega
+      · have := ih F (p0 + t.size) (S.map fun x => (x.1.tail, x.2 + (hd x.1).size))
+        simp only [tapp, List.singleton_append, List.mem_cons]
+        constructor
+        · rintro tp (rfl | h)
+          · simp
+          · have := this.1 tp h; omega
+        · rintro tp (rfl | h)
+          · simp
+          · have := this.2 tp h; omega
+
+/-- each parent, from its position on, is the flattened remaining forest -/
+def PInv (ps : List Flat) (S : List (List RT × Nat)) : Prop :=
+  All2 (fun (p : Flat) x => p.drop x.2 = flatL x.1) ps S
+
+theorem All2.get {α β : Type} {R : α → β → Prop} {l : List α} {l' : List β} (h : All2 R l l')
+    (d : α) : ∀ (j : Nat) (hj : j < l'.length), R (l.getD j d) (l'[j]) := by
+  induction h with
+  | nil => intro j hj; simp at hj
+  | cons h1 _ ih =>
+    intro j hj
+    cases j with
+    | zero => simpa using h1
+    | succ j => simpa using ih j (by simpa using hj)
+
+theorem subtree_of_drop (p : Flat) (i : Nat) (t : RT) (rest : Flat)
+    (h : p.drop i = flat t ++ rest) : subtree p i = flat t := by
+  unfold subtree
+  have h' : (arities p).drop i = arities (flat t) ++ arities rest := by
+    rw [← arities_append, ← h]; simp [arities, List.map_drop]
+  rw [endSub_of_drop _ _ _ _ h', List.drop_take, Nat.add_sub_cancel_left, h, ← size_flat t,
+    List.take_left']
+  rfl
+
+theorem getD_of_drop_flat (p : Flat) (i : Nat) (s : Nat) (ks : List RT) (rest : Flat)
+    (h : p.drop i = flat (.node s ks) ++ rest) : p.getD i (0, 0) = (s, ks.length) := by
+  have : (p.drop i)[0]? = some (s, ks.length) := by rw [h]; simp [flat]
+  rw [List.getElem?_drop, Nat.add_zero] at this
+  simp [List.getD_eq_getElem?_getD, this]
+
+theorem mem_of_drop {p : Flat} {i : Nat} {l : Flat} (h : p.drop i = l) {n : Node} (hn : n ∈ l) :
+    n ∈ p := by
+  rw [← h] at hn; exact List.mem_of_mem_drop hn
+
+/-- slot-wise depth bound: level of the slot + depth of the tree in it -/
+def Bnd (D : Nat) : List Nat → List RT → Prop
+  | l :: lv, t :: F => l + t.depth ≤ D ∧ Bnd D lv F
+  | _, _ => True
+
+theorem Bnd_append (D : Nat) : ∀ (lv1 : List Nat) (F1 : List RT) (lv2 : List Nat) (F2 : List RT),
+    lv1.length = F1.length →
+    (Bnd D (lv1 ++ lv2) (F1 ++ F2) ↔ Bnd D lv1 F1 ∧ Bnd D lv2 F2) := by
+  intro lv1
+  induction lv1 with
+  | nil =>
+    intro F1 lv2 F2 h
+    have : F1 = [] := List.length_eq_zero_iff.1 (by simpa using h.symm)
+    subst this
+    simp [Bnd]
+  | cons l lv1 ih =>
+    intro F1 lv2 F2 h
+    cases F1 with
+    | nil => simp at h
+    | cons t F1 =>
+      simp only [List.cons_append, Bnd]
+      rw [ih F1 lv2 F2 (by simpa using h), and_assoc]
+
+theorem Bnd_replicate (D l : Nat) : ∀ (n : Nat) (F : List RT), F.length = n →
+    (Bnd D (List.replicate n l) F ↔ ∀ t ∈ F, l + t.depth ≤ D) := by
+  intro n
+  induction n with
+  | zero =>
+    intro F h
+    have : F = [] := List.length_eq_zero_iff.1 h
+    subst this; simp [Bnd]
+  | succ n ih =>
+    intro F h
+    cases F with
+    | nil => simp at h
+    | cons t F =>
+      simp only [List.replicate_succ, Bnd, List.mem_cons, forall_eq_or_imp]
+      rw [ih F (by simpa using h)]
+
+theorem depth_kids (t : RT) : t.depth = depthL t.kids := by
+  cases t with | node s ks => simp [RT.depth, RT.kids]
+
+theorem uni_loop (ps : List Flat) (D : Nat) : ∀ (g : Nat) (F0 : List RT) (p0 : Nat)
+    (S' : List (List RT × Nat)) (lv pl bpre : List Nat),
+    PInv ps ((F0, p0) :: S') → (∀ x ∈ S', x.1.length = F0.length) → lv.length = F0.length →
+    sizeL F0 ≤ g → (∀ x ∈ (F0, p0) :: S', Bnd D lv x.1) → (∀ j ∈ pl, j < ps.length) →
+    (∀ b ∈ bpre, b < p0) →
+    ∃ F' : List RT,
+      (buildU ps (bpre ++ (csF g ((F0, p0) :: S')).2.map fun tp => tp.getD 0 0)
+        (csF g ((F0, p0) :: S')).1 pl).flatten = flatL F' ∧
+      F'.length = F0.length ∧ Bnd D lv F' ∧ ∀ n ∈ flatL F', ∃ p ∈ ps, n ∈ p := by
+  intro g
+  induction g with
+  | zero =>
+    intro F0 p0 S' lv pl bpre _ _ _ hg _ _ _
+    have := length_le_sizeL F0
+    have : F0 = [] := List.length_eq_zero_iff.1 (by omega)
+    subst this
+    exact ⟨[], by simp [csF, buildU], rfl, by simp [Bnd], by simp⟩
+  | succ g ih =>
+    intro F0 p0 S' lv pl bpre hinv hS' hlv hg hbnd hpl hbpre
+    match F0, lv, hlv with
+    | [], _, _ => exact ⟨[], by simp [csF, buildU], rfl, by simp [Bnd], by simp⟩
+    | t :: F, l0 :: lvt, hlv =>
+    rw [sizeL_cons] at hg
+    have htpos := size_pos t
+    have hlvt : lvt.length = F.length := by simpa using hlv
+    have hSall : ∀ x ∈ (t :: F, p0) :: S', x.1.length = F.length + 1 := by
+      intro x hx
+      rcases List.mem_cons.1 hx with rfl | hx
+      · rfl
+      · simpa using hS' x hx
+    have hklen : ps.length = S'.length + 1 := by
+      have := All2.length_eq hinv; simpa using this
+    -- the chosen parent
+    have hj : pl.headD 0 < S'.length + 1 := by
+      cases pl with
+      | nil => simp
+      | cons j pl => simpa [hklen] using hpl j (by simp)
+    generalize hjd : pl.headD 0 = j at hj
+    have hjS : j < ((t :: F, p0) :: S').length := by simpa using hj
+    have hget := All2.get hinv [] j hjS
+    have hxmem : ((t :: F, p0) :: S')[j] ∈ (t :: F, p0) :: S' := List.getElem_mem hjS
+    have hpos : (p0 :: S'.map (·.2)).getD j 0 = (((t :: F, p0) :: S')[j]).2 := by
+      have : (p0 :: S'.map (·.2)) = ((t :: F, p0) :: S').map (·.2) := rfl
+      rw [this]
+      simp only [List.getD_eq_getElem?_getD, List.getElem?_map, List.getElem?_eq_getElem hjS]
+      rfl
+    have hxlen := hSall _ hxmem
+    have hxbnd := hbnd _ hxmem
+    generalize ((t :: F, p0) :: S')[j] = x at hget hxmem hpos hxlen hxbnd
+    obtain ⟨Fx, px⟩ := x
+    have hpmem : ps.getD j [] ∈ ps := by
+      have hjp : j < ps.length := by omega
+      simp [List.getD_eq_getElem?_getD, hjp]
+    match Fx, hxlen with
+    | .node su ksu :: tl, hxlen =>
+    simp only [flatL_cons] at hget
+    simp only at hpos
+    rw [csF]
+    split
+    · rename_i hall
+      -- equal arities: copy the node of parent `j`
+      have harity : ∀ x ∈ (t :: F, p0) :: S', (hd x.1).kids.length = t.kids.length := by
+        intro x hx
+        rcases List.mem_cons.1 hx with rfl | hx
+        · rfl
+        · have := List.all_eq_true.1 hall x hx
+          simpa [RT.arity] using this
+      have hksu : ksu.length = t.kids.length := by simpa [RT.kids] using harity _ hxmem
+      have hlow := (csF_lowbound g (t.kids ++ F) (p0 + 1)
+        (S'.map fun x => ((hd x.1).kids ++ x.1.tail, x.2 + 1))).2
+      have hinv1 : PInv ps ((t.kids ++ F, p0 + 1) ::
+          S'.map fun x => ((hd x.1).kids ++ x.1.tail, x.2 + 1)) := by
+        have : PInv ps (((t :: F, p0) :: S').map
+            fun x => ((hd x.1).kids ++ x.1.tail, x.2 + 1)) := by
+          apply All2.map_right _ hinv
+          intro p x hx hdrop
+          obtain ⟨Fx, px⟩ := x
+          have h1 := hSall _ hx
+          match Fx, h1 with
+          | .node su ksu :: Fx, h1 =>
+            simp only [hd_cons, RT.kids, List.tail_cons]
+            have : p.drop px = (su, ksu.length) :: flatL (ksu ++ Fx) := by
+              rw [hdrop, flatL_cons, flat, flatL_append]; rfl
+            rw [← List.tail_drop, this]; rfl
+        exact this
+      have hbnd1 : ∀ x ∈ (t.kids ++ F, p0 + 1) ::
+          S'.map (fun x => ((hd x.1).kids ++ x.1.tail, x.2 + 1)),
+          Bnd D (List.replicate t.kids.length (l0 + 1) ++ lvt) x.1 := by
+        intro y hy
+        have : y ∈ ((t :: F, p0) :: S').map fun x => ((hd x.1).kids ++ x.1.tail, x.2 + 1) := hy
+        obtain ⟨x, hx, rfl⟩ := List.mem_map.1 this
+        have h1 := hSall _ hx
+        have h2 := harity _ hx
+        have h3 := hbnd _ hx
+        obtain ⟨Fx, px⟩ := x
+        match Fx, h1 with
+        | u :: Fx, h1 =>
+          simp only [hd_cons, List.tail_cons] at h2 ⊢
+          simp only [Bnd] at h3
+          rw [Bnd_append D _ _ _ _ (by simp [h2]), Bnd_replicate D _ _ _ h2]
+          refine ⟨?_, h3.2⟩
+          intro k hk
+          have := depth_lt_of_mem hk
+          rw [← depth_kids] at this
+          omega
+      obtain ⟨F1, hF1, hF1len, hF1bnd, hF1mem⟩ := ih (t.kids ++ F) (p0 + 1)
+        (S'.map fun x => ((hd x.1).kids ++ x.1.tail, x.2 + 1))
+        (List.replicate t.kids.length (l0 + 1) ++ lvt) pl.tail bpre hinv1
+        (by
+          intro y hy
+          obtain ⟨x, hx, rfl⟩ := List.mem_map.1 hy
+          have h1 := hSall x (List.mem_cons_of_mem _ hx)
+          have h2 := harity x (List.mem_cons_of_mem _ hx)
+          simp only [List.length_append, List.length_tail, h1, h2]
+          omega)
+        (by simp [hlvt]) (by have := kids_size t; rw [sizeL_append]; omega) hbnd1
+        (fun j hj => hpl j (List.mem_of_mem_tail hj))
+        (fun b hb => by have := hbpre b hb; omega)
+      simp only [List.length_append] at hF1len
+      refine ⟨.node su (F1.take t.kids.length) :: F1.drop t.kids.length, ?_, ?_, ?_, ?_⟩
+      · simp only [tapp, List.singleton_append, List.nil_append, buildU, List.flatten_cons, hjd]
+        rw [hF1]
+        have hnb : (bpre ++ (csF g ((t.kids ++ F, p0 + 1) ::
+            S'.map fun x => ((hd x.1).kids ++ x.1.tail, x.2 + 1))).2.map
+              fun tp => tp.getD 0 0).contains p0 = false := by
+          rw [Bool.eq_false_iff]
+          intro hc
+          rw [List.contains_iff_mem, List.mem_append] at hc
+          rcases hc with hc | hc
+          · have := hbpre p0 hc; omega
+          · obtain ⟨tp, htp, hp⟩ := List.mem_map.1 hc
+            have := hlow tp htp; omega
+        unfold piece
+        simp only [List.getD_cons_zero, hnb, Bool.false_eq_true, if_false, hpos]
+        rw [getD_of_drop_flat _ _ _ _ _ hget, flatL_cons, flat, List.length_take,
+          Nat.min_eq_left (by omega), hksu]
+        simp only [List.cons_append, List.cons.injEq, true_and, List.nil_append]
+        rw [← flatL_append, List.take_append_drop]
+      · simp; omega
+      · have hsplit := (Bnd_append D (List.replicate t.kids.length (l0 + 1)) (F1.take t.kids.length)
+          lvt (F1.drop t.kids.length) (by simp; omega)).1 (by rw [List.take_append_drop]; exact hF1bnd)
+        refine ⟨?_, hsplit.2⟩
+        have hk := (Bnd_replicate D (l0 + 1) t.kids.length (F1.take t.kids.length)
+          (by simp; omega)).1 hsplit.1
+        simp only [Bnd] at hxbnd
+        have hl0 : l0 ≤ D := by omega
+        rw [RT.depth]
+        have : depthL (F1.take t.kids.length) ≤ D - l0 := by
+          rw [depthL_le_iff]
+          intro k hkm
+          have := hk k hkm; omega
+        omega
+      · intro n hn
+        simp only [flatL_cons, flat, List.cons_append, List.mem_cons] at hn
+        rcases hn with rfl | hn
+        · refine ⟨_, hpmem, mem_of_drop hget ?_⟩
+          simp [flat, List.length_take]; omega
+        · apply hF1mem
+          rw [← List.take_append_drop t.kids.length F1, flatL_append]
+          simpa using hn
+    · -- border: copy the whole subtree of parent `j`
+      have hlow := (csF_lowbound g F (p0 + t.size)
+        (S'.map fun x => (x.1.tail, x.2 + (hd x.1).size))).2
+      have hinv2 : PInv ps ((F, p0 + t.size) ::
+          S'.map fun x => (x.1.tail, x.2 + (hd x.1).size)) := by
+        have : PInv ps (((t :: F, p0) :: S').map
+            fun x => (x.1.tail, x.2 + (hd x.1).size)) := by
+          apply All2.map_right _ hinv
+          intro p x hx hdrop
+          obtain ⟨Fx, px⟩ := x
+          have h1 := hSall _ hx
+          match Fx, h1 with
+          | u :: Fx, h1 =>
+            simp only [hd_cons, List.tail_cons]
+            rw [← List.drop_drop, hdrop, flatL_cons, ← size_flat u, List.drop_left']
+            rfl
+        exact this
+      have hbnd2 : ∀ x ∈ (F, p0 + t.size) :: S'.map (fun x => (x.1.tail, x.2 + (hd x.1).size)),
+          Bnd D lvt x.1 := by
+        intro y hy
+        have : y ∈ ((t :: F, p0) :: S').map fun x => (x.1.tail, x.2 + (hd x.1).size) := hy
+        obtain ⟨x, hx, rfl⟩ := List.mem_map.1 this
+        have h1 := hSall _ hx
+        have h3 := hbnd _ hx
+        obtain ⟨Fx, px⟩ := x
+        match Fx, h1 with
+        | u :: Fx, h1 =>
+          simp only [Bnd] at h3
+          exact h3.2
+      obtain ⟨F2, hF2, hF2len, hF2bnd, hF2mem⟩ := ih F (p0 + t.size)
+        (S'.map fun x => (x.1.tail, x.2 + (hd x.1).size)) lvt pl.tail (bpre ++ [p0]) hinv2
+        (by
+          intro y hy
+          obtain ⟨x, hx, rfl⟩ := List.mem_map.1 hy
+          have h1 := hSall x (List.mem_cons_of_mem _ hx)
+          simp only [List.length_tail, h1]
+          omega)
+        hlvt (by omega) hbnd2 (fun j hj => hpl j (List.mem_of_mem_tail hj))
+        (fun b hb => by
+          rcases List.mem_append.1 hb with hb | hb
+          · have := hbpre b hb; omega
+          · simp at hb; omega)
+      simp only [Bnd] at hxbnd
+      refine ⟨.node su ksu :: F2, ?_, by simp [hF2len], ⟨hxbnd.1, hF2bnd⟩, ?_⟩
+      · simp only [tapp, List.singleton_append, buildU, List.flatten_cons, List.map_cons,
+          List.getD_cons_zero, hjd]
+        have e : bpre ++ p0 :: (csF g ((F, p0 + t.size) ::
+            S'.map fun x => (x.1.tail, x.2 + (hd x.1).size))).2.map (fun tp => tp.getD 0 0) =
+            (bpre ++ [p0]) ++ (csF g ((F, p0 + t.size) ::
+            S'.map fun x => (x.1.tail, x.2 + (hd x.1).size))).2.map (fun tp => tp.getD 0 0) := by
+          simp
+        rw [e, hF2]
+        have hb : ((bpre ++ [p0]) ++ (csF g ((F, p0 + t.size) ::
+            S'.map fun x => (x.1.tail, x.2 + (hd x.1).size))).2.map
+              (fun tp => tp.getD 0 0)).contains p0 = true := by
+          rw [List.contains_iff_mem]; simp
+        unfold piece
+        simp only [List.getD_cons_zero, hb, if_true, hpos]
+        rw [subtree_of_drop _ _ _ _ hget, flatL_cons]
+      · intro n hn
+        rw [flatL_cons, List.mem_append] at hn
+        rcases hn with hn | hn
+        · exact ⟨_, hpmem, mem_of_drop hget (by simp [hn])⟩
+        · exact hF2mem n hn
+
+theorem parse_all (ps : List Flat) (h : ∀ p ∈ ps, wfAux 1 (arities p) = true) :
+    ∃ ts : List RT, ps = ts.map flat := by
+  induction ps with
+  | nil => exact ⟨[], rfl⟩
+  | cons p ps ih =>
+    obtain ⟨t, ht⟩ := parse p (h p (by simp))
+    obtain ⟨ts, hts⟩ := ih (fun q hq => h q (List.mem_cons_of_mem _ hq))
+    exact ⟨t :: ts, by simp [ht, hts]⟩
+
+theorem uniformX_spec (arity : Nat → Nat) (ps : List Flat) (hps : ∀ p ∈ ps, WF arity p)
+    (hk : 2 ≤ ps.length) (pool : List Nat) (hpool : ∀ j ∈ pool, j < ps.length)
+    (_hlen : ((commonRegion (ps.map arities)).1.headD []).length ≤ pool.length) :
+    WF arity (uniformX ps pool) ∧
+    depth (uniformX ps pool) ≤ (ps.map depth).foldl max 0 ∧
+    ∀ n ∈ uniformX ps pool, ∃ p ∈ ps, n ∈ p := by
+  obtain ⟨ts, rfl⟩ := parse_all ps (fun p hp => (hps p hp).1)
+  have hk' : 2 ≤ ts.length := by simpa using hk
+  match ts, hk' with
+  | t :: ts, hk' =>
+  have hcr := common_region_spec (t :: ts) hk'
+  have hmm : ((t :: ts).map flat).map arities = (t :: ts).map fun t => arities (flat t) := by
+    simp [Function.comp_def]
+  rw [← hmm] at hcr
+  have hU := uniformX_eq ((t :: ts).map flat) pool (t :: ts).length _ _ (by simp) hcr
+    (by simpa using hpool)
+  rw [hU]
+  simp only [List.headD_cons]
+  rw [commonSpec_eq_csF t ts t.size (Nat.le_refl _)]
+  have hinv : PInv ((t :: ts).map flat) (([t], 0) :: ts.map fun u => ([u], 0)) := by
+    have := All2_map_map (fun (p : Flat) (x : List RT × Nat) => p.drop x.2 = flatL x.1)
+      flat (fun u => ([u], 0)) (t :: ts) (by intro x; simp [flatL_cons])
+    exact this
+  have hD : ∀ x ∈ ([t], 0) :: ts.map (fun u => ([u], 0)),
+      Bnd (((t :: ts).map flat).map depth |>.foldl max 0) [0] x.1 := by
+    intro x hx
+    have : x ∈ (t :: ts).map fun u => (([u], 0) : List RT × Nat) := hx
+    obtain ⟨u, hu, rfl⟩ := List.mem_map.1 this
+    simp only [Bnd, Nat.zero_add, and_true]
+    rw [← depth_flat u]
+    have hm : depth (flat u) ∈ ((t :: ts).map flat).map depth :=
+      List.mem_map.2 ⟨flat u, List.mem_map.2 ⟨u, hu, rfl⟩, rfl⟩
+    exact le_listMax_of_mem hm
+  obtain ⟨F', hF', hlenF, hbndF, hmemF⟩ := uni_loop ((t :: ts).map flat) _ t.size [t] 0
+    (ts.map fun u => ([u], 0)) [0] pool [] hinv (by simp) rfl (by simp [sizeL_cons]) hD hpool
+    (by simp)
+  simp only [List.nil_append] at hF'
+  rw [hF']
+  match F', hlenF with
+  | [u], _ =>
+    simp only [flatL_cons, flatL_nil, List.append_nil] at hmemF ⊢
+    refine ⟨⟨wfAux_flat_self u, ?_⟩, ?_, hmemF⟩
+    · intro n hn
+      obtain ⟨p, hp, hnp⟩ := hmemF n hn
+      exact (hps p hp).2 n hnp
+    · rw [depth_flat]
+      simp only [Bnd, Nat.zero_add, and_true] at hbndF
+      exact hbndF
+
+end TFV.Tree
